@@ -79,13 +79,19 @@ def history_st(draw, max_steps=40, max_segments=3, max_n=7, min_workers=1, kills
                "policy_seed": draw(st.integers(0, 1000))}
         if spec["zeroswap"] is not None:
             seg["zeroswap"] = spec["zeroswap"]
+        if draw(st.sampled_from([True, False, False, False] if k == 0 else [True] + [False] * 7)):
+            # an unrelated simulation of the same system ran to its end earlier in the same interpreter
+            seg["prelude"] = {"steps": draw(st.integers(spec["workers"], 12)), "seed": draw(st.integers(0, 1000))}
+        if draw(st.sampled_from([False, False, True])):
+            seg["handover"] = "late"  # the runner serialises a submitted job only when the scheduler next talks to it
         if k > 0 and min_extend is None and draw(st.sampled_from([False, False, False, True])):
             # the restart runs on another allocation: any worker count the configuration allows
             seg["workers"] = draw(st.integers(1, spec["n"] - 1))
             W = seg["workers"]
         last = k == nseg - 1
         if kills and not last and draw(st.booleans()):
-            kill = draw(st.integers(1, add))
+            # (a restarted lifetime may die before it has consumed a single result; a fresh one leaves nothing to restart from then)
+            kill = draw(st.integers(0 if k > 0 else 1, add))
             seg["kill_after"] = kill
             reached = reached + kill
         else:
@@ -130,8 +136,10 @@ def run_case(case, flags, timeout=240.0):
                     viol.append((f"EXC:{typ}:{site}", f"[segment {k}] {where}: {r['exc'][2]}"))
             if r.get("config_none") and k > 0 and prev is not None:
                 # a restart that refuses although steps were raised beyond cstep
-                if prev.get("cstep_end") is not None and segs[k]["steps"] > prev.get("cstep_end", 0):
-                    viol.append(("C05:restart-refused", f"[segment {k}] setup_config returned None; previous cstep {prev.get('cstep_end')} target {segs[k]['steps']}"))
+                # (a lifetime killed before its first result is still at the step it started from)
+                pc = prev.get("cstep_end") if prev.get("cstep_end") is not None else prev.get("cstep_start")
+                if pc is not None and segs[k]["steps"] > pc:
+                    viol.append(("C05:restart-refused", f"[segment {k}] setup_config returned None; previous cstep {pc} target {segs[k]['steps']}"))
             if len(summ["trace"]) < 30:
                 summ["trace"] += [list(map(str, t)) for t in r.get("trace", [])[:12]]
             prev = r
@@ -158,6 +166,10 @@ def final_accounting(d, spec, results, flags, viol):
         for c in range(n):
             tot[c] += r["frac"][c]
     for pn, fr in cfg["current"].get("frac", {}).items():
+        # the live paths' weights (the table behind [current.frac] is process-wide: after another simulation in the same
+        # interpreter it also lists that simulation's last paths - entries no path of this simulation reads)
+        if int(pn) not in [int(x) for x in cfg["current"]["active"]]:
+            continue
         for c in range(n):
             tot[c] += float(fr[c])
     pns = [r["pn"] for r in rows]
